@@ -63,6 +63,11 @@ func validateStaticUpstream(upstream options.Upstream) []string {
 		return msgs
 	}
 
+	// net/http panics in WriteHeader for a status code outside this range
+	if upstream.StaticCode != nil && (*upstream.StaticCode < 100 || *upstream.StaticCode > 999) {
+		msgs = append(msgs, fmt.Sprintf("upstream %q has staticCode (%d), but a static response code must be a valid HTTP status code (100-999)", upstream.ID, *upstream.StaticCode))
+	}
+
 	if upstream.URI != "" {
 		msgs = append(msgs, fmt.Sprintf("upstream %q has uri, but is a static upstream, this will have no effect.", upstream.ID))
 	}
